@@ -261,7 +261,8 @@ func errKind(err error) string {
 	if errors.As(err, &he) {
 		return "sebufError"
 	}
-	if _, ok := err.(proto.Message); ok {
+	var pm proto.Message
+	if errors.As(err, &pm) {
 		return "protoMessage"
 	}
 	return "other"
